@@ -361,7 +361,88 @@ def p_cu2qu_otf(job):
     return font
 
 
-PIPES = {"recompile": p_recompile, "ttx": p_ttx, "fea": p_fea, "subset": p_subset, "instance": p_instance,
+def table_from_xml(tag, xml, glyphs):
+    from fontTools.misc.testTools import FakeFont, parseXML
+    from fontTools.ttLib import newTable
+
+    font = FakeFont(list(glyphs))
+    table = newTable(tag)
+    for element in parseXML(xml):
+        if not isinstance(element, tuple):
+            continue
+        name, attrs, content = element
+        table.fromXML(name, attrs, content, font)
+    return table, font
+
+
+def p_tablexml(job):
+    """One table built from an XML dump (generated, or a *_XML constant of the repo's table tests)
+    through fromXML on a fake glyph order, then compiled."""
+    import random
+    import re
+
+    src = job["source"]
+    if src.startswith("gen:"):
+        from vmon.gen import c16_aat
+
+        tag, xml, glyphs = c16_aat.GENERATORS[src[4:]](random.Random("c16-aat/%s/%s" % (src, job.get("seed", 0))))
+    else:
+        _, modname, const = src.split(":")
+        d = os.path.join(os.environ["VMON_REPO"], "Tests", "ttLib", "tables")
+        with open(os.path.join(d, modname + ".py"), encoding="utf-8") as f:
+            text = f.read()
+        m = re.search(r"^%s = \[\n(.*?)^\]" % re.escape(const), text, re.S | re.M)
+        import ast
+
+        lines = ast.literal_eval("[" + m.group(1) + "]")
+        xml = "\n".join(lines)
+        from fontTools.ttLib import identifierToTag
+
+        tag = identifierToTag(modname[: -len("_test")])
+        names = []
+        for v in re.findall(r'="([^"]*)"', xml):
+            if re.fullmatch(r"[A-Za-z_.][\w.\-]*", v) and v not in names:
+                names.append(v)
+        glyphs = [".notdef"] + [n for n in names if n != ".notdef"]
+    table, font = table_from_xml(tag, xml, glyphs)
+    data = table.compile(font)
+    holder = {"xml": None}
+
+    def dump():
+        from fontTools.misc.testTools import getXML
+        from fontTools.ttLib import newTable
+
+        t2 = newTable(tag)
+        t2.decompile(data, font)
+        return "\n".join(getXML(t2.toXML, font))
+
+    return ("tables", {tag: data}, dump)
+
+
+def fea_font_bytes(rel):
+    """A saved FontBuilder font with the feaLib tests' glyph set and the given corpus feature file."""
+    from fontTools.fontBuilder import FontBuilder
+    from fontTools.ttLib.tables._g_l_y_f import Glyph
+    from fontTools.feaLib.builder import addOpenTypeFeatures
+
+    _fea_font()
+    order = list(FEA_GLYPHS)
+    fb = FontBuilder(1000, isTTF=True)
+    fb.setupGlyphOrder(order)
+    fb.setupCharacterMap({ord(g): g for g in order if len(g) == 1})
+    fb.setupGlyf({g: Glyph() for g in order})
+    fb.setupHorizontalMetrics({g: (500, 0) for g in order})
+    fb.setupHorizontalHeader(ascent=800, descent=-200)
+    fb.setupNameTable({"familyName": "Host", "styleName": "Regular"})
+    fb.setupOS2()
+    fb.setupPost()
+    addOpenTypeFeatures(fb.font, os.path.join(os.environ["VMON_REPO"], "Tests", rel))
+    b = io.BytesIO()
+    fb.font.save(b)
+    return b.getvalue()
+
+
+PIPES = {"tablexml": p_tablexml, "recompile": p_recompile, "ttx": p_ttx, "fea": p_fea, "subset": p_subset, "instance": p_instance,
          "build": p_build, "merge": p_merge, "cu2qu-ufo": p_cu2qu_ufo, "cu2qu-otf": p_cu2qu_otf}
 
 
@@ -371,7 +452,13 @@ def run_job(job, want_xml=()):
     if isinstance(res, tuple) and res[0] == "tables":
         tabs = {t: _sha(b) for t, b in res[1].items()}
         if want_xml:
-            if res[2] is not None:
+            if callable(res[2]):
+                try:
+                    text = res[2]()
+                except Exception as e:
+                    text = "<!-- dump failed: %s -->" % type(e).__name__
+                xml = {t: text for t in want_xml if t in res[1]}
+            elif res[2] is not None:
                 xml = _xml_of(res[2], [t for t in want_xml if t in res[1]])
             else:
                 xml = {t: res[1][t].decode("utf-8", "replace").replace("), (", "),\n(") for t in want_xml if t in res[1]}
